@@ -427,6 +427,8 @@ pub fn run_c04(ctx: &Ctx) -> Report {
     let sum = run_harnesses(ctx, history::std_set(ctx), &["c04."], &mut rep, false);
     fill_report(&mut rep, &sum, "C04: to_string of every reachable value");
     keep_only(&mut rep, &["c04."]);
+    #[cfg(feature = "likelysubtags")]
+    super::conc::run_family(ctx, "shared", "c04.schedule", &mut rep);
     rep.rule = "Three routes to a value. Parse route: every accepted input of the E1 token trees and E2 skeleton/edit neighbourhoods; from_parts route: the complete product 24 ids x 781 variant lists x 480 extension shapes; mutation route: every state of the five E3 harnesses (explored to exhaustion). On each value to_string() must equal the independent canonicaliser applied to the model of the value, must be accepted by the independent strict recogniser as its own canonical form (charset, case, order, no 'true', nothing for empty extensions), canonicalize(s) must equal it and must not be longer than s. distinct_nontrivial = accepted inputs of the trees + from_parts values + distinct model values of E3.".into();
     rep.assumptions = vec!["reference canonicaliser and strict recogniser of DESIGN §3.1/§3.2".into(), "ExtensionsMap::other left empty (§6.4)".into()];
     rep
@@ -1020,6 +1022,8 @@ pub fn run_c12(ctx: &Ctx) -> Report {
         rep.engine_failures.push(format!("vacuity guard: value set too small or a route contributed nothing ({} values, routes {:?})", all.len(), by_route));
     }
     rep.samples.push(json!({"pair": [subset[0].2, subset[subset.len() / 2].2], "cmp": format!("{:?}", subset[0].0.cmp(&subset[subset.len() / 2].0))}));
+    #[cfg(feature = "likelysubtags")]
+    super::conc::run_family(ctx, "shared", "c12.schedule", &mut rep);
     rep.rule = "Value set R = distinct (by structural Debug text) implementation values from every state of the five E3 harnesses, every accepted input of the full token tree to depth 3, and a stride of the from_parts product. Checked: route independence (one model value <-> one representation) over all of R and inside every E3 search; on all ordered pairs of a stratified subset: x==y <=> equal to_string, equal => equal hash and Ordering::Equal, cmp antisymmetric and agreeing with partial_cmp, id order == (language, script, region, variants) with absent first, Locale order follows the id order, LanguageIdentifier == &str <=> canonical text; transitivity on all ordered triples of a 200-value subset; the four subtag types == &str against every subtag text of R and its case/length variants. distinct_nontrivial counts ordered pairs/triples of distinct values plus distinct E3 model values.".into();
     rep.assumptions = vec!["DefaultHasher::new() (fixed keys) as the fixed hasher".into(), "values with a non-empty ExtensionsMap::other are outside (unsupported field)".into()];
     rep
